@@ -420,39 +420,45 @@ Definition back_jump (st : sstate) (bp : list nat) : res sstate :=
   do ps' <- deage_n (length (s_path st) - keep) (s_ps st);
   Ok (set_stack (set_ps st ps') (firstn keep (s_path st)) (firstn keep (s_choices st))).
 
-(* a leaf that is not worse: "if !worse && len(op.binDividers) == n" *)
-Definition leaf_step (st : sstate) : res sstate :=
+(* count++ *)
+Definition bump (st : sstate) : sstate :=
+  mkS (s_ps st) (s_path st) (s_choices st) (S (s_count st)) (s_cb st) (s_cbPath st) (s_cbPerm st)
+      (s_cbInv st) (s_cbOrb st) (s_fl st) (s_flPath st) (s_flInv st) (s_flOrb st) (s_gens st) (s_skip st).
+
+(* the leaf is the new best (st: count already incremented): currentBest*, and on the first
+   leaf also firstLeaf*, are overwritten with the semantics of copy() *)
+Definition new_best (st : sstate) (cbInv : list nat) : sstate :=
   let ps := s_ps st in
   let order := order_of (p_cells ps) in
-  let count := S (s_count st) in
-  match cmp_list (p_value ps) (s_cb st) with
+  let cb := copy_into (firstn m (s_cb st ++ repeat 0 (m - length (s_cb st)))) (p_value ps) in
+  let cbPath := copy_into (s_cbPath st) (s_path st) in
+  let cbPerm := copy_into (s_cbPerm st) order in
+  let cbOrb := new n in
+  if s_count st =? 1 then
+    mkS ps (s_path st) (s_choices st) (s_count st) cb cbPath cbPerm cbInv cbOrb
+        (copy_into (s_fl st) (p_value ps)) (copy_into (s_flPath st) (s_path st))
+        (copy_into (s_flInv st) cbInv) (copy_into (s_flOrb st) cbOrb)
+        (s_gens st) (s_skip st)
+  else
+    mkS ps (s_path st) (s_choices st) (s_count st) cb cbPath cbPerm cbInv cbOrb
+        (s_fl st) (s_flPath st) (s_flInv st) (s_flOrb st) (s_gens st) (s_skip st).
+
+(* a leaf that is not worse: "if !worse && len(op.binDividers) == n" *)
+Definition leaf_step (st : sstate) : res sstate :=
+  let st0 := bump st in
+  let ps := s_ps st0 in
+  let order := order_of (p_cells ps) in
+  match cmp_list (p_value ps) (s_cb st0) with
   | Gt =>
-      let cb := copy_into (firstn m (s_cb st ++ repeat 0 (m - length (s_cb st)))) (p_value ps) in
-      let cbPath := copy_into (s_cbPath st) (s_path st) in
-      let cbPerm := copy_into (s_cbPerm st) order in
-      do cbInv <- of_opt (inv_into (s_cbInv st) order 0);
-      let cbOrb := new n in
-      if count =? 1 then
-        Ok (mkS ps (s_path st) (s_choices st) count cb cbPath cbPerm cbInv cbOrb
-                (copy_into (s_fl st) (p_value ps)) (copy_into (s_flPath st) (s_path st))
-                (copy_into (s_flInv st) cbInv) (copy_into (s_flOrb st) cbOrb)
-                (s_gens st) (s_skip st))
-      else
-        Ok (mkS ps (s_path st) (s_choices st) count cb cbPath cbPerm cbInv cbOrb
-                (s_fl st) (s_flPath st) (s_flInv st) (s_flOrb st) (s_gens st) (s_skip st))
+      do cbInv <- of_opt (inv_into (s_cbInv st0) order 0);
+      Ok (new_best st0 cbInv)
   | Eq =>
-      let st0 := mkS ps (s_path st) (s_choices st) count (s_cb st) (s_cbPath st) (s_cbPerm st)
-                     (s_cbInv st) (s_cbOrb st) (s_fl st) (s_flPath st) (s_flInv st) (s_flOrb st)
-                     (s_gens st) (s_skip st) in
       do gam <- of_opt (gamma_of order (s_cbInv st0) (seq 0 n));
       do r <- of_opt (orb_loop (seq 0 n) gam (s_cbOrb st0) false);
       do st1 <- record_gen (set_cbOrb st0 (fst r)) gam;
       back_jump st1 (s_cbPath st1)
   | Lt =>
-      let st0 := mkS ps (s_path st) (s_choices st) count (s_cb st) (s_cbPath st) (s_cbPerm st)
-                     (s_cbInv st) (s_cbOrb st) (s_fl st) (s_flPath st) (s_flInv st) (s_flOrb st)
-                     (s_gens st) (s_skip st) in
-      match cmp_list (p_value ps) (s_fl st) with
+      match cmp_list (p_value ps) (s_fl st0) with
       | Eq =>
           do gam <- of_opt (gamma_of order (s_flInv st0) (seq 0 n));
           do st1 <- record_gen st0 gam;
@@ -488,31 +494,36 @@ Definition h2 (count : nat) (lpath path : list nat) (ds : dset) (order : list na
     else of_opt (has_earlier_mate ds (firstn j (skipn (pos - j) order)) v)
   else Ok (ds, false).
 
+(* one iteration of jLoop with loop variable j: (state, stepped?); not stepped = "continue jLoop" *)
+Definition jbody (j : nat) (st : sstate) : res (sstate * bool) :=
+  do st1 <- undo st;
+  match last_opt (s_choices st1) with
+  | None => Panic
+  | Some 0 => Panic                                     (* op.order[-1] *)
+  | Some (S pos) =>
+      let st2 := set_stack st1 (s_path st1) (set_last (s_choices st1) pos) in
+      let order := order_of (p_cells (s_ps st2)) in
+      do v <- of_opt (nth_error order pos);
+      do r1 <- h2 (s_count st2) (s_flPath st2) (s_path st2) (s_flOrb st2) order pos j v;
+      let st3 := set_flOrb st2 (fst r1) in
+      if snd r1 then Ok (set_skip st3 true, false)
+      else
+        do r2 <- h2 (s_count st3) (s_cbPath st3) (s_path st3) (s_cbOrb st3) order pos j v;
+        let st4 := set_cbOrb st3 (fst r2) in
+        if snd r2 then Ok (set_skip st4 true, false)
+        else
+          do r3 <- split_bin g n m (s_cb st4) (s_fl st4) (s_ps st4) pos;
+          let st5 := set_stack (set_ps st4 (snd r3)) (set_last (s_path st4) j) (s_choices st4) in
+          Ok (st5, negb (fst r3))
+  end.
+
 (* jLoop: "for j := path[len(path)-1] - 1; j >= 0; j--"; jj = j + 1.  Result: (state, stepped?) *)
 Fixpoint jloop (jj : nat) (st : sstate) : res (sstate * bool) :=
   match jj with
   | 0 => Ok (st, false)
   | S j =>
-      do st1 <- undo st;
-      match last_opt (s_choices st1) with
-      | None => Panic
-      | Some 0 => Panic                                     (* op.order[-1] *)
-      | Some (S pos) =>
-          let st2 := set_stack st1 (s_path st1) (set_last (s_choices st1) pos) in
-          let order := order_of (p_cells (s_ps st2)) in
-          do v <- of_opt (nth_error order pos);
-          do r1 <- h2 (s_count st2) (s_flPath st2) (s_path st2) (s_flOrb st2) order pos j v;
-          let st3 := set_flOrb st2 (fst r1) in
-          if snd r1 then jloop j (set_skip st3 true)
-          else
-            do r2 <- h2 (s_count st3) (s_cbPath st3) (s_path st3) (s_cbOrb st3) order pos j v;
-            let st4 := set_cbOrb st3 (fst r2) in
-            if snd r2 then jloop j (set_skip st4 true)
-            else
-              do r3 <- split_bin g n m (s_cb st4) (s_fl st4) (s_ps st4) pos;
-              let st5 := set_stack (set_ps st4 (snd r3)) (set_last (s_path st4) j) (s_choices st4) in
-              if fst r3 then jloop j st5 else Ok (st5, true)
-      end
+      do r <- jbody j st;
+      if snd r then Ok r else jloop j (fst r)
   end.
 
 Inductive stepres : Type :=
